@@ -22,7 +22,7 @@ EXPLANATION = (
     "counts (pure arithmetic).")
 ASSUMPTIONS = ["register_work runs the task function exactly once (C01)", "n >= 0 (precondition of bulk)"]
 THOROUGH_CONFIGS = [["-UNDEBUG", "-DPIKA_DEBUG"]]
-FLOORS = {"C11.R1": 3, "C11.R2": 6, "C11.R3": 3, "C11.R4": 3, "C11.R5": 1}
+FLOORS = {"C11.R7": 6, "C11.R8": 3, "C11.R1": 3, "C11.R2": 6, "C11.R3": 3, "C11.R4": 3, "C11.R5": 1}
 
 NSB = "pika::thread_pool_bulk_detail::operation_state::bulk_receiver"
 
@@ -183,6 +183,148 @@ def run(rep, tier):
             rep.ok("C11.R2", fn, "the exception slot is written only after winning exception_thrown.exchange(true)")
         else:
             rep.bad("C11.R2", fn, fn.loc, "exception-race", "two failing workers can race on the exception slot (not guarded by exception_thrown.exchange(true))")
+    # ---- R7: the index arithmetic, evaluated
+    rep.rule("C11.R7", "K7 (evaluated on sample shapes): the chunks [index*chunk_size, min((index+1)*chunk_size, n)) tile [0, n) exactly; do_work_chunk calls f for "
+             "every i of its chunk and no other; init_queue partitions the chunk indices [0, num_chunks) among the workers; every chunk index a worker pops "
+             "(own queue from the left, neighbours' from the right) is processed, in a loop until the queue is empty; finish() completes with the recorded exception "
+             "exactly when one was recorded")
+    from engine.kinds import eval_tree as _ev, Unknown as _Un, eval_walk as _ewk, expand_locals as _xl
+    n7 = 0
+    for fn in inst(LV + "::do_work_chunk")[:2]:
+        idx = fn.params[-1]["name"]
+        decls = {e["var"]: e["init"] for _, _, e in fn.all_events() if e.get("k") == "decl" and e.get("init") is not None}
+        loopc = [blk for blk in fn.blocks.values() if blk.cond is not None and loop_of(fn, blk.id)]
+        app = [(b, i, e) for b, i, e in fn.all_events() if e.get("k") == "call" and callee_short(e) == "bind_front"]
+        if len(loopc) != 1 or not app:
+            raise AnalysisBroken("%s: loop over the chunk / call of f not found" % fn.full[:80])
+        lc = loopc[0]
+        ivars = [strip(e["args"][1]).get("name") for _, _, e in app if len(e.get("args") or []) >= 2 and strip(e["args"][1]).get("k") == "var"]
+        if not ivars or ivars[0] not in decls:
+            raise AnalysisBroken("%s: f is not called with the loop variable" % fn.full[:80])
+        iv = ivars[0]
+        bad = None
+        nsamp = 0
+        for cs in (1, 2, 4, 8):
+            for n in (1, 2, 3, 7, 8, 9, 16, 17, 31):
+                nchunks = (n + cs - 1) // cs
+                covered = []
+                for k in range(nchunks + 1):          # one chunk index past the end: must be empty
+                    env = {idx: k, "this->task_f->chunk_size": cs, "this->task_f->n": n}
+                    try:
+                        i0 = _ev(_xl(fn, decls[iv]), env)
+                        called = []
+                        i_ = i0
+                        for _guard in range(80):
+                            env2 = dict(env)
+                            env2[iv] = i_
+                            truth = bool(_ev(_xl(fn, lc.cond), env2))
+                            stays = [t for l, t, _ in lc.succ if l == ("true" if truth else "false")][0] in loop_of(fn, lc.id)
+                            if not stays:
+                                break
+                            called.append(i_)
+                            i_ += 1
+                    except (_Un, KeyError, IndexError) as ex:
+                        raise AnalysisBroken("%s: chunk bounds not evaluable (%s)" % (fn.full[:80], ex))
+                    nsamp += 1
+                    if k == nchunks and called and bad is None:
+                        bad = "chunk index %d (one past the last) of n=%d, chunk_size=%d calls f for %s" % (k, n, cs, called[:4])
+                    if k < nchunks:
+                        covered += called
+                if bad is None and covered != list(range(n)):
+                    miss = sorted(set(range(n)) - set(covered))
+                    extra = sorted(set(covered) - set(range(n)))
+                    dup = sorted(set(x for x in covered if covered.count(x) > 1))
+                    bad = "n=%d, chunk_size=%d: f is called for %s (never for %s, more than once for %s, out of range %s)" % (n, cs, covered[:12], miss[:6], dup[:6], extra[:6])
+        n7 += 1
+        if bad:
+            rep.bad("C11.R7", fn, fn.loc, "chunk-tiling", "do_work_chunk does not call f exactly once for every index of [0, n): %s" % bad)
+        else:
+            rep.ok("C11.R7", fn, "chunks tile [0, n) exactly and f is called once per index (%d chunk evaluations)" % nsamp, sites=nsamp)
+    for fn in inst(NSB + "::init_queue")[:1]:
+        decls = {e["var"]: e["init"] for _, _, e in fn.all_events() if e.get("k") == "decl" and e.get("init") is not None}
+        rs = [e for _, _, e in fn.all_events() if e.get("k") == "call" and callee_short(e) == "reset" and len(e.get("args") or []) == 2]
+        if len(rs) != 1 or len(fn.params) != 2:
+            raise AnalysisBroken("init_queue: queue.reset(begin, end) not found")
+        w_, nc_ = fn.params[0]["name"], fn.params[1]["name"]
+        bad = None
+        for W in (1, 2, 3, 4, 7):
+            for NC in (0, 1, 2, 5, 8, 33):
+                got = []
+                for w in range(W):
+                    env = {w_: w, nc_: NC, "this->op_state->num_worker_threads": W}
+                    try:
+                        b0, e0 = _ev(_xl(fn, rs[0]["args"][0]), env), _ev(_xl(fn, rs[0]["args"][1]), env)
+                    except _Un as ex:
+                        raise AnalysisBroken("init_queue: range not evaluable (%s)" % ex)
+                    got += list(range(int(b0), int(e0)))
+                if got != list(range(NC)) and bad is None:
+                    bad = "%d workers, %d chunks: the queues hold %s" % (W, NC, got[:12])
+        n7 += 1
+        if bad:
+            rep.bad("C11.R7", fn, loc_of(rs[0]), "chunk-partition", "init_queue does not partition the chunk indices [0, num_chunks) among the workers: %s - chunks are never "
+                    "processed (indices never passed to f) or processed twice" % bad)
+        else:
+            rep.ok("C11.R7", fn, "init_queue partitions [0, num_chunks) among the workers (30 sample configurations)")
+    for fn in [f for f in inst(LV + "::operator()") if any(callee_short(e) in ("pop_left", "pop_right") for _, _, e in f.all_events() if e.get("k") == "call")][:2]:
+        pops = [(b, i, e) for b, i, e in fn.all_events() if e.get("k") == "call" and callee_short(e) in ("pop_left", "pop_right")]
+        for b, i, e in pops:
+            n7 += 1
+            lp = loop_of(fn, b)
+            # the block that tests the popped value
+            test = [blk for blk in fn.blocks.values() if blk.cond is not None and lp and blk.id in lp and any(x is e for x in blk.events)]
+            if not lp or not test:
+                rep.bad("C11.R7", fn, loc_of(e), "pop-not-drained:" + callee_short(e), "%s is not the test of a loop: a worker takes at most one chunk from that queue and "
+                        "leaves the rest unprocessed (f is never called for those indices; the operation completes all the same)" % T(e))
+                continue
+            tb = test[0]
+            a, pos = cond_atoms(tb.cond)
+            succ_lab = "true" if pos else "false"
+            tgt = [t for l, t, _ in tb.succ if l == succ_lab]
+            miss = None
+            if tgt:
+                # from the success edge: do_work_chunk before the next pop / leaving
+                seen, stack, ok_ = set(), [tgt[0]], True
+                while stack:
+                    v = stack.pop()
+                    if v in seen:
+                        continue
+                    seen.add(v)
+                    evs = fn.blocks[v].events
+                    if any(x.get("k") == "call" and callee_short(x) == "do_work_chunk" for x in evs):
+                        continue
+                    if v == tb.id or v == fn.exit or any(x.get("k") == "call" and callee_short(x) in ("pop_left", "pop_right") for x in evs):
+                        ok_ = False
+                        break
+                    stack += [t for _, t in fn.succs(v)]
+                miss = not ok_
+            if miss or not tgt:
+                rep.bad("C11.R7", fn, loc_of(e), "popped-chunk-dropped:" + callee_short(e), "a chunk index obtained by %s is not handed to do_work_chunk before the next pop: "
+                        "f is never called for the indices of that chunk" % callee_short(e))
+            else:
+                rep.ok("C11.R7", fn, "every chunk popped by %s is processed, in a loop until the queue is empty" % callee_short(e))
+    for fn in inst(TF + "::finish")[:1]:
+        ff = FactFlow(fn)
+        for b, i, e in fn.all_events():
+            if e.get("k") != "call":
+                continue
+            fb = ff.before.get((b, i)) or frozenset()
+            thrown = [t for a, t in fb if "exception_thrown" in a and "exchange" not in a]
+            if callee_of(e) == NS + "set_error":
+                n7 += 1
+                if True in thrown:
+                    rep.ok("C11.R7", fn, "set_error only when an exception was recorded")
+                else:
+                    rep.bad("C11.R7", fn, loc_of(e), "finish-branch", "finish() completes with set_error on the path where no exception was recorded (an empty optional is dereferenced) "
+                            "and with the values although a call of f threw")
+            elif callee_short(e) == "visit":
+                n7 += 1
+                if False in thrown:
+                    rep.ok("C11.R7", fn, "the value completion only when no exception was recorded")
+                else:
+                    rep.bad("C11.R7", fn, loc_of(e), "finish-branch", "finish() forwards the values on a path where an exception was recorded: the receiver gets a value although f threw")
+    if n7 < 6:
+        raise AnalysisBroken("C11.R7 examined only %d instances" % n7)
+
     # ---- R3
     for fn in inst(TF + "::finish"):
         ff = FactFlow(fn)
@@ -231,7 +373,8 @@ def run(rep, tier):
                        for cs in (1, 2, 64, 1 << 20) for nt in (1, 3, 16) for n in (0, 1, 7, 8, 9, 383, 384, 385, 1 << 33))
         except Unknown:
             return False
-    exit_ok = any(bound_cond(blk.cond) for blk in gcs.blocks.values() if blk.cond is not None)
+    # ... and it has to be the test of a loop (an 'if' doubles the chunk size once and leaves without the bound)
+    exit_ok = any(bound_cond(blk.cond) and loop_of(gcs, blk.id) is not None for blk in gcs.blocks.values() if blk.cond is not None)
     if lossy or narrow_ret or narrow_var:
         what = []
         if lossy:
@@ -302,3 +445,7 @@ def run(rep, tier):
         raise AnalysisBroken("generic bulk: no analysable instantiation")
     # ---- R6
     C17.index_queue_rules(rep, "C11.R6")
+    # ---- R8: the generic bulk receiver forwards error / stopped exactly once (same rule as C03.R1)
+    from .common import import_rules
+    import_rules(rep, tier, "C03", ("C03.R1",), "C11.R8", "K3 (shared with C03.R1): the receivers of bulk hand the downstream receiver off exactly once on every path of every "
+                 "completion member, through its own channel (an upstream error or stopped signal is forwarded, not swallowed)", only=lambda t: "bulk" in t)
